@@ -16,7 +16,7 @@ REG = ("add_other_identifier", "add_shadowing_identifier", "add_unit")
 
 
 def _loops_over_aliases(fn):
-    """for-loops whose iterator is decorator::name_and_aliases*(…): [(loop match node, ids bound by the loop pattern)]"""
+    """loops (for-loops or iterator closures) over decorator::name_and_aliases*(…): [(loop node, ids bound by its pattern)]"""
     res = []
     for x in walk(fn["body"]):
         if x.get("k") == "Match" and str(x.get("src", "")).startswith("ForLoop") and x["scrut"].get("k") == "Call" and (callee(x["scrut"]) or "").endswith("IntoIterator::into_iter"):
@@ -30,6 +30,18 @@ def _loops_over_aliases(fn):
                                 ids |= {q["id"] for q in walk(a["pat"]) if q.get("k") == "Binding"}
                         break
                 res.append((x, ids))
+    # iterator form: name_and_aliases(..).map(|(alias, ..)| { register(alias)?; .. }) / for_each / try_for_each
+    for x in walk(fn["body"]):
+        if x.get("k") == "MethodCall" and x["name"] in ("map", "for_each", "try_for_each", "filter_map", "flat_map", "inspect") and x.get("args"):
+            if not any(y.get("k") == "Call" and "name_and_aliases" in (callee(y) or "") for y in walk(x["recv"])):
+                continue
+            cl = peel(x["args"][0])
+            if cl.get("k") != "Closure":
+                continue
+            ids = set()
+            for p in cl.get("params", []) or []:
+                ids |= {q["id"] for q in walk(p.get("pat", p)) if q.get("k") == "Binding"}
+            res.append((cl, ids))
     return res
 
 
